@@ -23,7 +23,7 @@ RUN_TIMEOUT_S = 600
 
 def gen(src, tier):
     cfg = configs.gen_config(src, strategy="filter", priors=("iwp", "iwp", "ioup", "matern"),
-                             inits=("exact", "exact", "inexact", "diffuse"))
+                             inits=("exact", "exact", "inexact", "diffuse", "partial"))
     q = cfg["q"]
     hi = q >= 7
     hb = 10 ** (src.uniform("hb", -1.7, -0.6) if hi else src.uniform("hb", -2.3, -0.3))
